@@ -73,7 +73,7 @@ check(
           "to 10^4; values from {0,-0,+-1,+-i, log-uniform 1e-100..1e100}); 34 statement kinds cover every accepted operator x operand "
           "type combination (array/array, array/scalar, scalar/array, compound, aliasing a op= a, a = a op a, unary, copy). One "
           "evaluation = one operator application judged element-wise against the long-double field formula (4*eps*M) with bitwise "
-          "operand snapshots; plus mask/index-list selection, concatenation, zeropad and length-mismatch cases. non-trivial = "
+          "operand snapshots; plus mask/index-list selection, concatenation, zeropad and length-mismatch cases. products and quotients additionally per component (4/8 eps times the sum of the magnitudes of that component's two products); non-trivial = "
           "non-empty arrays; distinct = hash of (combination, operator, length, leading operand bits)."),
     min_distinct={"quick": 20000, "thorough": 300000},
     technique="runtime monitor: per-operation scalar interpreter in long double complex + bitwise value-semantics snapshots, repeated under ASan/UBSan (thorough: also under valgrind memcheck on the -O2 build)",
@@ -146,7 +146,8 @@ check(
           "and 147/160, FIRResampler, Delay R/C, MedianFilter, MAFilter R/C, HilbertFilter, Tuner, Agc R/C, Compressor, Limiter, NoiseGate, "
           "LMS/NLMS R/C, RLS R/C with lock toggles on sample indices): every composition of k granules (k<=9 quick, k<=12 thorough; asan "
           "pass k<=7) and random heavy-tailed framings of streams up to 1e4 (quick) / 1e5 (thorough) samples, compared with one call on "
-          "the whole stream by a fresh instance (equal output counts, |diff| <= 1e-12*scale); interleaved instances vs solo runs. "
+          "the whole stream by a fresh instance (equal output counts, |diff| <= 1e-12*scale); interleaved instances vs solo runs; for processors with a granule above one, calls of an inadmissible length are "
+          "attempted between frames of the random framings and must be rejected without effect. "
           "non-trivial = framing with more than one frame; distinct = (configuration, framing)."),
     exhaustive_subspaces={"quick": ["all 2^(k-1) framings of k<=9 granules per configuration"],
                           "thorough": ["all 2^(k-1) framings of k<=12 granules per configuration (k<=6 for granules above 500 samples)"]},
@@ -167,7 +168,7 @@ check(
           "size and long inputs (2e4 quick / 1e5 thorough) with random, impulsive and 1e+-12 dynamic range content, against the long-double "
           "sum y[i]=sum conj(c[k]) x[i-k] (direct: max(8,m+4)*eps*sum|c||x| per sample; FFT: 64*eps*log2(fftlen)*sum|c|*max|x|), emitted count "
           "floor(len/block)*block and FftFilter == FirFilter on the emitted prefix; xcorr for all (n1,n2) in 1..48^2 (thorough 1..96^2) real and complex plus "
-          "sampled pairs to 5000, every lag; MAFilter (n = 1..20 / 1..130 and powers of two to 1000, wide-dynamic-range and burst inputs) vs FirFilter(ones(n)/n) and vs the exact window mean, tolerance scaled by the largest of the last 2n inputs. distinct = hash of "
+          "sampled pairs to 5000, every lag; MAFilter (n = 1..20 / 1..130 and powers of two to 1000, wide-dynamic-range and burst inputs) vs FirFilter(ones(n)/n) and vs the exact window mean, tolerance scaled by the largest of the last 2n inputs. Every FIR case is also fed as a stream of uneven frames (long, short, empty) against the same sums; half of the xcorr pairs live on independent scales 1e-10..1e10. distinct = hash of "
           "(configuration, coefficient and input bits)."),
     exhaustive_subspaces={"quick": ["xcorr: all length pairs (n1,n2) in 1..48 x 1..48, real and complex"],
                           "thorough": ["xcorr: all length pairs (n1,n2) in 1..96 x 1..96, real and complex", "every coefficient length 2..1024 x 11 input lengths x real/complex"]},
@@ -269,7 +270,7 @@ check(
           "the magnitude response on a long-double grid (1024 quick / 4096 thorough points) inside the masks (pass 1+-0.02, stop <= 0.02, "
           "transition half-width 4/(n+1)); windows hann/hamming/blackman/blackmanharris/cosine/gauss/tukey/kaiser for every length 3..512 "
           "(plus sampled to 1e5) and parameters gauss alpha in [0.5,6], tukey r in [-0.5,1.5], kaiser beta in [0,40]: closed form in long "
-          "double (1e-12), range [0,1], symmetry, periodic(n) == first n of symmetric(n+1). distinct = (function, parameters)."),
+          "double (1e-12), range [0,1], symmetry, periodic(n) == first n of symmetric(n+1). custom windows include asymmetric tapers (random, periodic hann/hamming), for which the response must still be symmetric. distinct = (function, parameters)."),
     exhaustive_subspaces={"quick": ["all fir1 orders 2..256", "all window lengths 3..512"], "thorough": ["all fir1 orders 2..256", "all window lengths 3..512"]},
     min_distinct={"quick": 20000, "thorough": 30000},
     min_obs={"quick": {"mask_checks": 300, "wrong_window_length_cases": 1000}, "thorough": {"mask_checks": 3000, "wrong_window_length_cases": 1000}},
@@ -349,7 +350,7 @@ check(
           "squares and products of two primes near 2^16, and 2e4 (quick) / 1e6 (thorough) random 32-bit arguments against deterministic "
           "Miller-Rabin; primes(n) for all n<=600 and sampled n to 2^19 / 2^22 against the sieve prefix; nextpow2/ispow2 within 256 / 4096 of "
           "every 2^k, k<=30, and INT_MAX. Every call runs under a logical step budget on the DSPLIB_VERIF counter (isprime/factor: "
-          "32*(sqrt(n)+64); nextprime: that times (gap+1); primes: 32*(pi(n)+1)*(sqrt(n)+64)). distinct = (function, argument)."),
+          "32*(sqrt(n)+64); nextprime: that times (gap+1); primes: 32*(pi(n)+1)*(sqrt(n)+64)). 48/400 seeded call histories mix repeated, decreasing, prime and tiny arguments over primes/isprime/factor/nextprime (answers must not depend on earlier calls). distinct = (function, argument)."),
     exhaustive_subspaces={"quick": ["all n in [0, 2^20] for isprime/factor/nextprime/nextpow2/ispow2"], "thorough": ["all n in [0, 2^22] for isprime/factor/nextprime/nextpow2/ispow2"]},
     min_distinct={"quick": 3000000, "thorough": 15000000},
     technique="runtime monitor: sieve / Miller-Rabin oracle over exhaustive and boundary arguments, logical step-budget hook as termination oracle",
@@ -414,7 +415,7 @@ check(
           "(quick: a seeded stride of F/24), amplitudes -70..+20 dB, noise 30..60 dB below, thresholds 0.3..0.9, and preamble-free streams: "
           "the first report is judged against a long-double normalised matched-filter statistic (frame and offset of the first sample above "
           "1.07*thr, bitwise aligned preamble samples, score >= 0.97 at the true end; silence when the statistic stays below 0.93*thr; "
-          "streams entering the band first are skipped and counted). distinct = (configuration, signal bits)."),
+          "streams entering the band first are skipped and counted). In half of the detector streams a call with a wrong frame length is made before the preamble completes; it must throw and change nothing. distinct = (configuration, signal bits)."),
     min_distinct={"quick": 7000, "thorough": 300000},
     min_obs={"quick": {"delay_cases": 500, "detections_at_true_preamble_end": 100, "detector_streams_expecting_silence": 10},
              "thorough": {"delay_cases": 1000, "detections_at_true_preamble_end": 1000, "detector_streams_expecting_silence": 100}},
